@@ -478,7 +478,18 @@ func (e *Enc) resolveName(sc *Scope, name string) (Val, bool) {
 				switch d := instrs[i].(type) {
 				case *ssa.DebugRef:
 					if id := identName(d); id == name {
+						if al := loadOfAlloc(d.X); al != nil && !d.IsAddr {
+							// a use of an address-taken local: its current value is what the cell holds now
+							if _, defined := fr.vals[al]; defined || fr.lazy {
+								return getv(al, true), true
+							}
+						}
 						if _, defined := fr.vals[d.X]; defined || isConstOrParam(d.X) || fr.lazy {
+							if !d.IsAddr && b != sc.blk && staleBetween(fn, name, d, b, sc.blk) {
+								// the variable was assigned on some path between this definition and the
+								// program point but SSA kept no merged value (it is dead there)
+								panic(unsupported("variable " + name + " has no single value at this program point (assigned on some paths and dead afterwards); snapshot it with `at stmt ... let`"))
+							}
 							return getv(d.X, d.IsAddr), true
 						}
 					}
@@ -529,6 +540,59 @@ func (e *Enc) resolveName(sc *Scope, name string) (Val, bool) {
 		return scan()
 	}
 	return Val{}, false
+}
+
+// staleBetween reports whether the variable `name`, whose value d was found in dominating block
+// defBlk, is also mentioned with a different SSA value in a block lying on some forward path
+// from defBlk to useBlk (then d is not necessarily its value at useBlk).
+func staleBetween(fn *ssa.Function, name string, d *ssa.DebugRef, defBlk, useBlk *ssa.BasicBlock) bool {
+	for _, b2 := range fn.Blocks {
+		if b2 == defBlk || b2 == useBlk || !defBlk.Dominates(b2) || b2.Dominates(useBlk) {
+			continue
+		}
+		found := false
+		for _, ins := range b2.Instrs {
+			if d2, ok := ins.(*ssa.DebugRef); ok && !d2.IsAddr && identName(d2) == name && d2.X != d.X && loadOfAlloc(d2.X) == nil {
+				found = true
+				break
+			}
+		}
+		if !found {
+			continue
+		}
+		// forward reachability b2 -> useBlk
+		seen := map[*ssa.BasicBlock]bool{b2: true}
+		stack := []*ssa.BasicBlock{b2}
+		for len(stack) > 0 {
+			x := stack[len(stack)-1]
+			stack = stack[:len(stack)-1]
+			if x == useBlk {
+				return true
+			}
+			for _, s := range x.Succs {
+				if !seen[s] && !s.Dominates(x) {
+					seen[s] = true
+					stack = append(stack, s)
+				}
+			}
+		}
+	}
+	return false
+}
+
+// loadOfAlloc returns the Alloc (or FreeVar cell) a value was loaded from, if v is such a load.
+func loadOfAlloc(v ssa.Value) ssa.Value {
+	u, ok := v.(*ssa.UnOp)
+	if !ok || u.Op != token.MUL {
+		return nil
+	}
+	switch x := u.X.(type) {
+	case *ssa.Alloc:
+		return x
+	case *ssa.FreeVar:
+		return x
+	}
+	return nil
 }
 
 func isConstOrParam(v ssa.Value) bool {
@@ -729,6 +793,32 @@ func (e *Enc) evalCall(sc *Scope, n *CCall, hint types.Type) Val {
 			}
 			e.declUF("iface_type", "(Int) Int")
 			return Val{Typ: types.Typ[types.Bool], L: []T{And(Not(Eq(a.L[0], IntLit64(IntS, 0))), Eq(T{IntS, app("iface_type", a.L[0].E)}, IntLit64(IntS, int64(e.prog.typeID(t)))))}}
+		}
+		// ghost function declared in a contract file: `//@ ghost func name(T1, T2) R` (uninterpreted)
+		if sc.pkg != nil {
+			if g := e.prog.ghostFunc(sc.pkg.Path(), id.Name); g != nil {
+				if len(n.Args) != len(g.Params) {
+					panic(unsupported("ghost function arity: " + n.String()))
+				}
+				rt := e.resolveTypeName(sc, g.Result)
+				if rt == nil || len(e.shape(rt)) != 1 {
+					panic(unsupported("ghost function result type: " + g.Result))
+				}
+				var sorts, terms []string
+				for i, a := range n.Args {
+					pt := e.resolveTypeName(sc, g.Params[i])
+					if pt == nil || len(e.shape(pt)) != 1 {
+						panic(unsupported("ghost function parameter type: " + g.Params[i]))
+					}
+					v := e.eval(sc, a, pt)
+					sorts = append(sorts, e.shape(pt)[0].S.String())
+					terms = append(terms, v.L[0].E)
+				}
+				rs := e.shape(rt)[0].S
+				fname := "ghost_" + sanitize(id.Name)
+				e.declUF(fname, "("+strings.Join(sorts, " ")+") "+rs.String())
+				return Val{Typ: rt, L: []T{{rs, app(fname, terms...)}}}
+			}
 		}
 		// conversion T(x)?
 		if _, bound := sc.vars[id.Name]; !bound && len(n.Args) == 1 {
